@@ -18,9 +18,13 @@ from sim.env import SimEnv, UNIT
 
 ID = "C08"
 LEVEL = "exploration"
-QUICK_N = 60000
+QUICK_N = 40000
 THOROUGH_N = 2000000
-CHUNK = 40
+# The runner keeps at most 6 violating scenarios per chunk whatever their keys: small chunks in
+# quick so that seeds hitting already-known defects cannot crowd out a new kind of violation;
+# larger ones in thorough to bound what the parent process has to hold.
+CHUNK = 400 if ("thorough" in __import__("sys").argv
+                or __import__("os").environ.get("VERIF_TIER") == "thorough") else 25
 RULE = ("gen(seed): response stream from a grammar (status-line variants, 0-2 interim 1xx, "
         "CL/chunked/close-delimited/none framing, 204/304/HEAD, gzip valid/truncated/garbage, "
         "malformed CL/TE/chunk/header variants, trailing bytes), truncated at a structural offset "
@@ -250,7 +254,7 @@ def gen(rng, tier, index):
 
     style = rng.choice([0] * 17 + [1, 2, 2])
     # ---- interim responses
-    n_interim = rng.choice([0] * 7 + [1, 1, 2])
+    n_interim = rng.choice([0] * 14 + [1, 1, 2])
     for _ in range(n_interim):
         code = rng.choice([100, 102, 103, 103])
         lines = [b"HTTP/1.1 %d %s" % (code, REASONS[code].encode())]
@@ -491,7 +495,7 @@ def gen(rng, tier, index):
     mbs = None
     if rng.random() < 0.4:
         base = rng.choice([len(body), len(wire_body), len(body), 0])
-        mbs = max(0, base + rng.choice([-1, 0, 0, 1, 1, -base // 2, base, 5]))
+        mbs = max(1, base + rng.choice([-1, 0, 0, 1, 1, -base // 2, base, 5]))
     mhs = None
     if rng.random() < 0.2:
         h = bounds[[p[0] for p in parts].index("blank")] if any(p[0] == "blank" for p in parts) \
@@ -507,7 +511,7 @@ def gen(rng, tier, index):
         "max_body_size": mbs, "max_header_size": mhs,
         "req_body": req_body, "eager": eager,
         "window": rng.choice([16, 64, 300]) if eager and req_body > 100 else 0,
-        "no_timeout": rng.random() < 0.06,
+        "no_timeout": rng.random() < 0.03,
     }
     return {
         "property": ID, "version": 1, "knobs": knobs,
@@ -522,6 +526,8 @@ def validate(scn):
     try:
         s = scn["stream"]
         bytes.fromhex(s[4:])
+        if scn["knobs"].get("max_body_size") is not None and scn["knobs"]["max_body_size"] < 1:
+            return False  # 0 would be a legal limit but reads like "unlimited" in a replay
         return (s.startswith("hex:") and isinstance(scn["knobs"], dict)
                 and scn["knobs"].get("method") in ("GET", "HEAD", "POST")
                 and all(isinstance(x, list) and len(x) == 2 for x in scn["segs"])
@@ -722,7 +728,9 @@ def run(scn, full_log=False):
         if umb is not None and rule.startswith("c08."):
             rule = umb + rule[4:].split(".")[0]
             key = rule
-        viol.append({"rule": rule, "key": key or rule, "msg": msg})
+        # rule == key: the shrinker only keeps candidates that fail with the same *rule*, and a
+        # violation must not drift into the class of another (possibly known) defect
+        viol.append({"rule": key or rule, "key": key or rule, "msg": msg})
 
     def probe(name, k=1):
         probes[name] = probes.get(name, 0) + k
@@ -881,6 +889,21 @@ def run(scn, full_log=False):
         probe("response_before_request_fully_sent")
     if rst:
         probe("end_rst")
+    # where did the arrival boundaries fall?
+    off = 0
+    first = True
+    hdr_end = data.find(b"\r\n\r\n")
+    for sg in scn.get("segs") or ():
+        ln, gap = max(1, sg[0]), sg[1]
+        if not first and gap > 0 and 0 < off < len(data):
+            if data[off - 1:off + 1] == b"\r\n":
+                probe("arrival_cut_between_cr_and_lf")
+            if hdr_end >= 0 and hdr_end < off < hdr_end + 4:
+                probe("arrival_cut_inside_header_terminator")
+            if ref.framing == "chunked" and off > hdr_end + 4:
+                probe("arrival_cut_inside_chunked_body")
+        first = False
+        off += ln
     if mbs is not None:
         probe("max_body_size_set")
     faults = st["faults"]
